@@ -1,6 +1,6 @@
 //! End-to-end checks through the real listener: C01 C03(e2e half) C04(e2e half) C05 C07 C11 C13 C14 C15.
 
-use gpa_verif::props::{c01, c05, c14, c15};
+use gpa_verif::props::{c01, c05, c07, c11, c13, c14, c15};
 use gpa_verif::report::{Known, Params, Stats};
 use gpa_verif::rig::Rig;
 use gpa_verif::runner::Drive;
@@ -60,6 +60,23 @@ fn main() {
             let n = params.share(if th { 40_000 } else { 900 });
             Drive { params: &params, stats: &mut stats, known: &known }.run("c15.limits", 15, c15::strategy(if th { 30 } else { 10 }), n, |c, s| c15::eval(&rig, c, s));
             (c15::RULE.into(), e2e_assumptions)
+        }
+        "C11" => {
+            let st = c11::start_status_task(&rig);
+            let n = params.share(if th { 40_000 } else { 1_200 });
+            Drive { params: &params, stats: &mut stats, known: &known }.run("c11.modes", 11, c11::strategy(), n, |c, s| c11::eval(&rig, &st, c, s));
+            (c11::RULE.into(), e2e_assumptions)
+        }
+        "C07" => {
+            let n = params.share(if th { 30_000 } else { 1_000 });
+            Drive { params: &params, stats: &mut stats, known: &known }.run("c07.single-use", 7, c07::strategy(), n, |c, s| c07::eval(&rig, c, s));
+            (c07::RULE.into(), e2e_assumptions)
+        }
+        "C13" => {
+            let st = std::cell::RefCell::new(c13::E2eState { status: c11::start_status_task(&rig), cases: 0, last_stamp: String::new() });
+            let n = params.share(if th { 100_000 } else { 2_000 });
+            Drive { params: &params, stats: &mut stats, known: &known }.run("c13.e2e", 131, c13::e2e_strategy(), n, |c, s| c13::eval_e2e(&rig, &mut st.borrow_mut(), c, s));
+            (c13::RULE_E2E.into(), e2e_assumptions)
         }
         other => {
             eprintln!("e2e: unknown property '{}'", other);
